@@ -81,6 +81,39 @@ def zipped_selections(rnd, tier):
     return progs
 
 
+def stringform_slices(rnd, tier):
+    """C02: every dimension of every template through slice_dim with a
+    catalogue of selections: forward, strided, from the end, reversed down to
+    element 0, reversed with an explicit stop, single (also negative) indices."""
+    dims = {'T1': {'t': 2, 'y': 2, 'x': 3}, 'T2': {'t': 3, 'z': 1, 'x': 2},
+            'T3': {'y': 3, 't': 2, 'x': 2}, 'T4': {'t': 2, 'y': 2, 'x': 2},
+            'T7': {'t': 2, 'z': 3, 'y': 2, 'x': 3}}
+
+    def sl(a, b, c):
+        return {'k': 'slice', 'h': [a is not None, b is not None,
+                                    c is not None],
+                'v': [x if x is not None else 0 for x in (a, b, c)]}
+    progs = []
+    for t in sorted(dims):
+        for d, n in dims[t].items():
+            cat = [sl(1, None, None), sl(None, None, 2), sl(-2, None, None),
+                   sl(None, None, -1), sl(n - 1, None, -2), sl(None, 0, -1),
+                   sl(0, n, 1), {'k': 'int', 'v': 0},
+                   {'k': 'int', 'v': n - 1}, {'k': 'int', 'v': -1},
+                   {'k': 'int', 'v': -n}]
+            for s_ in cat:
+                if s_['k'] == 'slice' and len(range(*cd.py_sel(s_).indices(
+                        n))) == 0:
+                    continue
+                progs.append({'templates': [t], 'steps': [{
+                    'act': 'slice', 'src': 1, 'others': [], 'args': {
+                        'sels': [{'d': d, 's': s_}], 'newdim': 'POINTS',
+                        'via': 'slice_dim'}}]})
+    if tier == 'quick':
+        progs = rnd.sample(progs, min(len(progs), 90))
+    return progs
+
+
 def stringform_applies(rnd, tier):
     """C03: every dimension of every template through the string forms
     reduce_dim ('dim,function') and convolve_dim ('dim,mode,weights')."""
@@ -171,6 +204,7 @@ def run(prop, tier, extra=None):
         progs += stringform_applies(rnd, tier)
     if prop == 'C02':
         progs += zipped_selections(rnd, tier)
+        progs += stringform_slices(rnd, tier)
     # spec -> code: every program the bounded model emits is replayed
     mcp = cd.mc_programs(out, prop, tier)
     out.cov['programs_emitted_by_tlc'] = len(mcp)
